@@ -461,14 +461,19 @@ def rule_projections(ctx, rid):
         for e in exits:
             if e.kind != 'return':
                 continue
+            # the projected vector is the one returned (whatever its name)
+            outname = 'out'
+            rv = e.value
+            if rv[0] == 's' and '@F' in rv[1]:
+                outname = rv[1].split('@')[0]
             for ls in e.state.loops:
                 if ls.kind != 'for':
                     continue
-                if 'out' in ls.entry_env:
-                    init = ls.entry_env['out']
+                if outname in ls.entry_env:
+                    init = ls.entry_env[outname]
                 for kind, b in ls.body_states:
                     for eff in b.effects:
-                        if eff[0] != 'setitem' or eff[5] != 'out':
+                        if eff[0] != 'setitem' or eff[5] != outname:
                             continue
                         n += 1
                         idx, val = eff[2], eff[3]
@@ -505,10 +510,14 @@ def rule_projections(ctx, rid):
         else:
             ctx.passed(rid, fi, c1, '%d store states' % n)
         txt = show(init) if init is not None else ''
-        if init is not None and 'nan' in txt and ('zeros_like(%s)' % like in txt or 'full' in txt):
+        from .common import nan_vector
+        nv = nan_vector(init, S(like)) if init is not None else None
+        if nv is True:
             ctx.passed(rid, fi, c2, txt[:70])
-        else:
+        elif nv is False or init is None:
             ctx.violation(rid, fi, c2, 'initial value is %s' % (txt[:70] or 'not found'))
+        else:
+            ctx.undecided(rid, fi, c2, 'initial value is %s' % txt[:70])
     for name, chain in COMPOSED.items():
         fi = P.func(MOD + '.' + name)
         exits = [e for e in Evaluator(P).run(fi) if e.kind == 'return']
